@@ -282,3 +282,40 @@ pub mod seam {
         0
     }
 }
+
+// ---- stdout capture (EGraph::dump prints with println!) --------------------------------------
+
+extern "C" {
+    fn dup(fd: i32) -> i32;
+    fn dup2(oldfd: i32, newfd: i32) -> i32;
+    fn close(fd: i32) -> i32;
+}
+
+static STDOUT_CAPTURE: std::sync::Mutex<()> = std::sync::Mutex::new(());
+
+/// Runs `f` with file descriptor 1 redirected into a temporary file and returns what was written.
+/// Serialised process-wide; the simulator itself prints nothing while runs are executing.
+pub fn capture_stdout(f: impl FnOnce()) -> String {
+    use std::io::Write;
+    use std::os::unix::io::AsRawFd;
+    let _g = STDOUT_CAPTURE.lock().unwrap_or_else(|e| e.into_inner());
+    let path = std::env::temp_dir().join(format!("simcheck-stdout-{}-{:?}", std::process::id(), std::thread::current().id()));
+    let file = std::fs::File::create(&path).expect("capture file");
+    let _ = std::io::stdout().flush();
+    let saved = unsafe { dup(1) };
+    assert!(saved >= 0);
+    unsafe { dup2(file.as_raw_fd(), 1) };
+    let r = std::panic::catch_unwind(std::panic::AssertUnwindSafe(f));
+    let _ = std::io::stdout().flush();
+    unsafe {
+        dup2(saved, 1);
+        close(saved);
+    }
+    drop(file);
+    let out = std::fs::read_to_string(&path).unwrap_or_default();
+    let _ = std::fs::remove_file(&path);
+    if let Err(e) = r {
+        std::panic::resume_unwind(e);
+    }
+    out
+}
